@@ -148,3 +148,82 @@ fn vecdeque_wide_body() {
 }
 #[cfg(kani)] #[kani::proof] #[kani::unwind(20)] fn vecdeque_wide() { vecdeque_wide_body() }
 #[cfg(all(not(kani), psc_verif_replay))] #[test] fn replay_vecdeque_wide() { vk::load_replay(); vecdeque_wide_body() }
+
+// ---- C05/C02/C03: the derived in-place decoder (decode_into, used under Box / arrays) agrees with the derived decoder --------
+#[derive(crate::Decode)]
+#[codec(crate = crate)]
+#[repr(transparent)]
+pub struct TCompact(#[codec(compact)] u32, core::marker::PhantomData<u8>);
+#[derive(crate::Decode)]
+#[codec(crate = crate)]
+#[repr(transparent)]
+pub struct TPlain(u16, core::marker::PhantomData<u8>);
+fn decode_into_vs_decode_body() {
+    let bytes = [vk::any_u8(), vk::any_u8(), vk::any_u8(), vk::any_u8(), vk::any_u8()];
+    let len = vk::any_usize();
+    vk::assume(len <= 5);
+    let mut a: &[u8] = &bytes[..len];
+    let mut b: &[u8] = &bytes[..len];
+    let r1 = <TCompact>::decode(&mut a);
+    let r2 = <Box<TCompact>>::decode(&mut b);
+    match (r1, r2) {
+        (Ok(x), Ok(y)) => assert!(x.0 == y.0 && a.len() == b.len(), "Box<T> of a derived transparent struct decodes a different value or consumes different bytes than T"),
+        (Err(_), Err(_)) => {}
+        _ => assert!(false, "Box<T> of a derived transparent struct accepts what T rejects (or the reverse)"),
+    }
+    // the field attribute decides the layout: the compact form of the value, not four raw bytes
+    let mut c: &[u8] = &bytes[..len];
+    let r3 = <Compact<u32>>::decode(&mut c);
+    let mut d: &[u8] = &bytes[..len];
+    let r4 = <Box<TCompact>>::decode(&mut d);
+    match (r3, r4) {
+        (Ok(Compact(v)), Ok(y)) => assert!(v == y.0 && c.len() == d.len(), "#[codec(compact)] field of a transparent struct is not decoded as a compact integer in place"),
+        (Err(_), Err(_)) => {}
+        _ => assert!(false, "in-place decoding of a #[codec(compact)] field disagrees with Compact<u32> on acceptance"),
+    }
+    let mut e: &[u8] = &bytes[..len];
+    let mut f: &[u8] = &bytes[..len];
+    let r5 = <TPlain>::decode(&mut e);
+    let r6 = <[TPlain; 1]>::decode(&mut f);
+    match (r5, r6) {
+        (Ok(x), Ok(y)) => assert!(x.0 == y[0].0 && e.len() == f.len(), "[T;1] of a derived transparent struct differs from T"),
+        (Err(_), Err(_)) => {}
+        _ => assert!(false, "[T;1] of a derived transparent struct accepts what T rejects (or the reverse)"),
+    }
+}
+#[cfg(kani)] #[kani::proof] #[kani::unwind(8)] fn decode_into_vs_decode() { decode_into_vs_decode_body() }
+#[cfg(all(not(kani), psc_verif_replay))] #[test] fn replay_decode_into_vs_decode() { vk::load_replay(); decode_into_vs_decode_body() }
+
+// ---- C09: an input that cannot report its length; a claimed count of 2^20 with three payload bytes behind it ------------------
+/// delivers `data`, never reports a remaining length, records the largest announced allocation
+pub struct Blind<'a> { data: &'a [u8], pos: usize, max_announced: usize }
+impl<'a> Input for Blind<'a> {
+    fn remaining_len(&mut self) -> Result<Option<usize>, Error> { Ok(None) }
+    fn read(&mut self, into: &mut [u8]) -> Result<(), Error> {
+        if into.len() > self.data.len() - self.pos { return Err("eof".into()); }
+        let mut i = 0;
+        while i < into.len() { into[i] = self.data[self.pos + i]; i += 1; }
+        self.pos += into.len();
+        Ok(())
+    }
+    fn on_before_alloc_mem(&mut self, size: usize) -> Result<(), Error> {
+        if size > self.max_announced { self.max_announced = size; }
+        Ok(())
+    }
+}
+fn blind_alloc_body() {
+    // compact(2^20) in four-byte mode, then three payload bytes
+    let bytes = [0x02u8, 0x00, 0x40, 0x00, vk::any_u8(), vk::any_u8(), vk::any_u8()];
+    let mut i1 = Blind { data: &bytes[..], pos: 0, max_announced: 0 };
+    let r1 = <crate::alloc::string::String>::decode(&mut i1);
+    assert!(r1.is_err(), "a string claiming 2^20 bytes decoded from 3");
+    assert!(i1.max_announced <= MAX_PREALLOCATION, "String decoding announced (and requested) memory by the claimed count, not chunk by chunk");
+    let mut i2 = Blind { data: &bytes[..], pos: 0, max_announced: 0 };
+    let r2 = <Vec<u8>>::decode(&mut i2);
+    assert!(r2.is_err() && i2.max_announced <= MAX_PREALLOCATION, "Vec<u8> decoding announced memory by the claimed count");
+    let mut i3 = Blind { data: &bytes[..], pos: 0, max_announced: 0 };
+    let r3 = <Vec<u32>>::decode(&mut i3);
+    assert!(r3.is_err() && i3.max_announced <= MAX_PREALLOCATION, "Vec<u32> decoding announced memory by the claimed count");
+}
+#[cfg(kani)] #[kani::proof] #[kani::unwind(6)] fn blind_alloc() { blind_alloc_body() }
+#[cfg(all(not(kani), psc_verif_replay))] #[test] fn replay_blind_alloc() { vk::load_replay(); blind_alloc_body() }
